@@ -10,6 +10,15 @@
   two predicates share a symbol with different arities).  Two explicit environment hypotheses:
   `depth s ≤ fuel` (enough Python stack) and `subsOK limit s` (every subscript has at most
   `sys.get_int_max_str_digits()` digits — beyond it `str()` in the WRITER already raises).
+
+  "Distinct sentences never render to the same string" is proved in full as `C12_render_injective`:
+  every regenerated string table (6 Polish, 6 standard: text/ascii|text|unicode, html, latex, rst),
+  the notation of the table, every option set of the standard writer, ALL constructible sentences
+  (no `WF` / `subsOK` needed).  Polish half: `C12_render_injective_polish_tables` (prefix code).
+  Standard half: `C12_render_injective_standard_tables` — the tables are a prefix code up to the pair
+  `E` (atomic) / `E!` (Existence), which is resolved by one character of lookahead
+  (`DecodableLA`, `standard_tables_decodable_lookahead`, Proofs/LangStdFol.lean).  The `_partial`
+  variants (sentences without Existence, no lookahead) are kept.
 -/
 import Ptx.Proofs.LangParseArg
 import Ptx.Proofs.LangWriteInj
@@ -17,6 +26,8 @@ import Ptx.Proofs.LangParseWF
 import Ptx.Proofs.LangStdWrite
 import Ptx.Proofs.LangStdInj
 import Ptx.Proofs.LangStdDecode
+import Ptx.Proofs.LangStdFol
+import Ptx.Tab.Render
 import Ptx.Gen.ObSymbols
 namespace Ptx.Props.C12
 open Ptx Ptx.Sym Ptx.Parse Ptx.Write
@@ -329,7 +340,7 @@ example : ∀ t ∈ Gen.Symbols.stringTables, t.notn = "standard" → Decodable 
 theorem C12_render_tokens_injective (t : StringTable) (m : MaxIdx) (ex : Bool) (hd : Decodable t m ex = true)
     (ts1 ts2 : List WTok) (a1 : Adm (symToks t m ex) ts1) (a2 : Adm (symToks t m ex) ts2)
     (h : render t ts1 = render t ts2) : ts1 = ts2 :=
-  render_inj (DecodableP.of_bool hd) ts1 ts2 a1 a2 h
+  render_inj (DecodableP.of_bool hd) ts1 ts2 a1 a2 (fol_false _ _) (fol_false _ _) h
 
 example : Adm (symToks Gen.Symbols.str_html_polish_html Gen.Symbols.maxi true) [.atom 0, .sub 12, .op1 .neg] :=
   ⟨Or.inr (by decide), Or.inl ⟨12, rfl, by decide, by intro t ht; simp at ht; subst ht; rfl⟩, Or.inr (by decide), trivial⟩
@@ -345,7 +356,7 @@ theorem C12_render_injective_polish (t : StringTable) (m : MaxIdx) (hd : Decodab
   have a1 := adm_polish ht rfl s1 [] c1 trivial nn
   have a2 := adm_polish ht rfl s2 [] c2 trivial nn
   simp only [List.append_nil] at a1 a2
-  exact C12_tokens_injective_polish m s1 s2 c1 c2 (render_inj (DecodableP.of_bool hd) _ _ a1 a2 h)
+  exact C12_tokens_injective_polish m s1 s2 c1 c2 (render_inj (DecodableP.of_bool hd) _ _ a1 a2 (fol_false _ _) (fol_false _ _) h)
 
 /-- … instantiated: every regenerated Polish string table -/
 theorem C12_render_injective_polish_tables (t : StringTable) (ht : t ∈ Gen.Symbols.stringTables)
@@ -362,10 +373,9 @@ example : Gen.Symbols.str_latex_polish_latex ∈ Gen.Symbols.stringTables ∧ Ge
 /-- `C12_render_injective_standard_partial`: standard notation, any table `Decodable` without
     Existence and having parentheses and a negated-identity symbol, EVERY option set, all
     constructible sentences WITHOUT an Existence predication.
-    Missing for the full statement (kept in the comment below): sentences containing Existence —
-    `E` (atomic 4) is a prefix of `E!` in all six standard tables; it needs the lookahead lemma
-    "an atomic token is followed by a subscript, a blank, a close paren or the end, none of whose
-    renderings starts with `!`" in `step`. -/
+    (Kept from the version without lookahead; superseded by `C12_render_injective_standard`, which
+    covers sentences containing Existence — `E` (atomic 4) is a prefix of `E!` in all six standard
+    tables — through the follower discipline of standard streams.) -/
 theorem C12_render_injective_standard_partial (t : StringTable) (m : MaxIdx) (o : StdOpts)
     (hd : Decodable t m false = true)
     (hstd : (t.parenOpen.isSome && t.parenClose.isSome && t.negIdentity.isSome) = true)
@@ -376,7 +386,7 @@ theorem C12_render_injective_standard_partial (t : StringTable) (m : MaxIdx) (o 
   rw [hstd] at ht
   have a1 := adm_standard ht o s1 c1 (Or.inr e1)
   have a2 := adm_standard ht o s2 c2 (Or.inr e2)
-  exact C12_tokens_injective_standard m o s1 s2 c1 c2 (render_inj (DecodableP.of_bool hd) _ _ a1 a2 h)
+  exact C12_tokens_injective_standard m o s1 s2 c1 c2 (render_inj (DecodableP.of_bool hd) _ _ a1 a2 (fol_false _ _) (fol_false _ _) h)
 
 /-- … instantiated: every regenerated standard string table, every option set -/
 theorem C12_render_injective_standard_tables_partial (t : StringTable) (ht : t ∈ Gen.Symbols.stringTables)
@@ -391,15 +401,72 @@ example : writeStandard Gen.Symbols.str_html_standard_html {} (.op2 .conj (.atom
     ≠ writeStandard Gen.Symbols.str_html_standard_html {} (.op2 .disj (.atom 0 0) (.atom 1 0)) := by decide +kernel
 example : noExistence (.op1 .neg (.pred Pred.identity [.const 0 0, .const 1 0])) = true := by decide
 
-/-! ### still open — full statement kept here
+/-! ### standard notation with Existence: the lookahead -/
 
-    ▸ theorem C12_render_injective (n : Notation) (o) (tbl ∈ stringTables) :
-        Constructible m s1 → Constructible m s2 → write n o tbl s1 = write n o tbl s2 → s1 = s2
+/-- every regenerated standard table is `DecodableLA`: decodable WITH the Existence symbol once the
+    prefix pair (atomic `E`, `E!`) is excused — the character after `E` in `E!` is not a digit and
+    is not the first character of the subscript opener, the blank or the close paren, which (with
+    the end of the stream) is all that follows an atomic token in a standard stream
+    (`fol_standard`) -/
+theorem standard_tables_decodable_lookahead :
+    ∀ t ∈ Gen.Symbols.stringTables, t.notn = "standard" →
+      DecodableLA t Gen.Symbols.maxi = true ∧
+      (t.parenOpen.isSome && t.parenClose.isSome && t.negIdentity.isSome) = true := by
+  decide +kernel
 
-  Proved: the Polish half in full (`C12_render_injective_polish_tables`), the standard half for
-  sentences without Existence (`C12_render_injective_standard_tables_partial`).  Open: standard
-  tables on sentences WITH Existence (`E` / `E!`, see above).
--/
+/-- the excusal is not a blanket one: a table whose blank were `!` is rejected -/
+example : DecodableLA { Gen.Symbols.str_text_standard_ascii with ws := [33] } Gen.Symbols.maxi = false := by
+  decide +kernel
+
+/-- C12, "distinct sentences never render to the same string", standard notation, ANY table that is
+    `DecodableLA` and has parentheses and a negated-identity symbol, EVERY option set
+    (`drop_parens`, `identity_infix`, `max_infix`), ALL constructible sentences (Existence, open /
+    vacuous / re-bound ones included). -/
+theorem C12_render_injective_standard (t : StringTable) (m : MaxIdx) (o : StdOpts)
+    (hd : DecodableLA t m = true)
+    (hstd : (t.parenOpen.isSome && t.parenClose.isSome && t.negIdentity.isSome) = true)
+    (s1 s2 : Sent) (c1 : Constructible m s1) (c2 : Constructible m s2)
+    (h : writeStandard t o s1 = writeStandard t o s2) : s1 = s2 := by
+  have ht := hasToks_symToks t m true
+  rw [hstd] at ht
+  have a1 := adm_standard ht o s1 c1 (Or.inl rfl)
+  have a2 := adm_standard ht o s2 c2 (Or.inl rfl)
+  exact C12_tokens_injective_standard m o s1 s2 c1 c2
+    (render_inj (DecodableP.of_boolG hd) _ _ a1 a2 (fol_standard m o s1 c1) (fol_standard m o s2 c2) h)
+
+example : Constructible Gen.Symbols.maxi (.op2 .conj (.atom 4 0) (.pred Pred.existence [.const 0 0])) :=
+  ⟨by decide, by decide⟩
+
+/-- … instantiated: every regenerated standard string table (text/ascii|text|unicode, html, latex,
+    rst), every option set -/
+theorem C12_render_injective_standard_tables (t : StringTable) (ht : t ∈ Gen.Symbols.stringTables)
+    (hn : t.notn = "standard") (o : StdOpts) (s1 s2 : Sent)
+    (c1 : Constructible Gen.Symbols.maxi s1) (c2 : Constructible Gen.Symbols.maxi s2)
+    (h : writeStandard t o s1 = writeStandard t o s2) : s1 = s2 :=
+  C12_render_injective_standard t Gen.Symbols.maxi o (standard_tables_decodable_lookahead t ht hn).1
+    (standard_tables_decodable_lookahead t ht hn).2 s1 s2 c1 c2 h
+
+/-- `E!a` against `E` (atomic 4) and against `E & a`-like continuations -/
+example : writeStandard Gen.Symbols.str_text_standard_ascii {} (.pred Pred.existence [.const 0 0])
+    ≠ writeStandard Gen.Symbols.str_text_standard_ascii {} (.atom 4 0) ∧
+    writeStandard Gen.Symbols.str_text_standard_ascii {} (.pred Pred.existence [.const 0 0]) = [69, 33, 97] := by
+  decide +kernel
+
+/-- **C12, distinct sentences never render to the same string — the full statement**: for every
+    regenerated string table (all formats and dialects), the notation the table belongs to, every
+    option set of the standard writer, and ALL constructible sentences.  (`Render.writeSent tbl nt`
+    is `PolishLexWriter` / `StandardLexWriter(**opts)` on the table.) -/
+theorem C12_render_injective (t : StringTable) (ht : t ∈ Gen.Symbols.stringTables) (nt : Render.Notn)
+    (hnt : (t.notn = "polish" ∧ nt = .polish) ∨ (t.notn = "standard" ∧ ∃ o, nt = .standard o))
+    (s1 s2 : Sent) (c1 : Constructible Gen.Symbols.maxi s1) (c2 : Constructible Gen.Symbols.maxi s2)
+    (h : Render.writeSent t nt s1 = Render.writeSent t nt s2) : s1 = s2 := by
+  rcases hnt with ⟨hn, rfl⟩ | ⟨hn, o, rfl⟩
+  · exact C12_render_injective_polish_tables t ht hn s1 s2 c1 c2 h
+  · exact C12_render_injective_standard_tables t ht hn o s1 s2 c1 c2 h
+
+example : ∀ t ∈ Gen.Symbols.stringTables, t.notn = "polish" ∨ t.notn = "standard" := by decide +kernel
+example : Render.writeSent Gen.Symbols.str_rst_standard_rst (.standard {}) (.pred Pred.existence [.const 0 0])
+    ≠ Render.writeSent Gen.Symbols.str_rst_standard_rst (.standard {}) (.atom 4 0) := by decide +kernel
 
 /-- `C12_standard_denotes_partial` (kept from the first version): kernel evaluation for one fixed
     sentence; superseded by `C12_standard_denotes` / `C12_standard_roundtrip`. -/
